@@ -146,3 +146,7 @@ impl State {
         Access::set_or_create(&mut self.last_access, path_id, version);
     }
 }
+
+#[cfg(loom_verif)]
+#[path = "/verif/hooks/notify_verif.rs"]
+pub(crate) mod verif;
